@@ -31,4 +31,6 @@ func init() {
 	shareRow("C02", "D3-ephemeral", "C01")
 	// a resolved contract that stays an unresolved member is also a membership failure
 	shareRow("C02", "D5-v2-revise-renew-then-again", "C04")
+	// a forged or resolved contract listed as expiring is paid out (again)
+	shareRow("C04", "M1-v1-expiring-supplement", "C07", "C02")
 }
